@@ -491,6 +491,22 @@ class World:
         self.emit(op, out)
         return g, h, err
 
+    def to_dot(self, c, **opts):
+        """prov_to_dot -> pydot text -> Graphviz (dot -Tdot_json) -> canonical structure"""
+        from prov.dot import prov_to_dot
+        from . import dotjson
+        op = {"op": "to_dot", "c": c, "nary": bool(opts.get("show_nary", True)), "labels": bool(opts.get("use_labels", False)),
+              "eattrs": bool(opts.get("show_element_attributes", True)), "rattrs": bool(opts.get("show_relation_attributes", True))}
+        text = None
+        try:
+            text = prov_to_dot(self.conts[c], **opts).to_string()
+            ok, res = dotjson.run_dot(text)
+            out = {"graph": dotjson.canon_from_graphviz(res)} if ok else {"graph": None, "graphviz_error": res[:300]}
+        except Exception as e:  # noqa
+            out = {"graph": None, "err": err_name(e)}
+        self.emit(op, out)
+        return text, out
+
     def provn(self, c):
         """printer channel: the exact PROV-N text"""
         try:
@@ -584,6 +600,18 @@ def diff_outputs(ops, impl_outs, model_outs):
         if "fatal" in b:
             return i, "model-fatal: %s" % b["fatal"]
         proto.normalize_model_obs(b)
+        if ops[i]["op"] == "to_dot":
+            from . import dotjson
+            if a.get("graph") is None:
+                continue          # Graphviz rejected the text / the exporter raised: judged by the oracle, not comparable
+            mb = dotjson.canon_from_model(b)
+            defined = mb.pop("defined_in")
+            ga = dict(a["graph"])
+            mem = ga.pop("members", {})
+            # every node the model defines inside a cluster must be a member of that cluster in Graphviz's view
+            ok_members = all(set(v) <= set(mem.get(k, [])) for k, v in defined.items())
+            a = {"graph": ga, "members_ok": True}
+            b = {"graph": mb, "members_ok": ok_members}
         if ops[i]["op"] == "graph_roundtrip" and "edges" in b:
             for e in b["edges"]:
                 if e is not None:
